@@ -1,4 +1,5 @@
 import MicroHttp.Props.C07
+import MicroHttp.Props.C08System
 #print axioms MicroHttp.C07.yielded_tokens
 #print axioms MicroHttp.C07.outstanding_token_identifies
 #print axioms MicroHttp.C07.respond_routes
@@ -7,3 +8,5 @@ import MicroHttp.Props.C07
 #print axioms MicroHttp.C07.event_frame
 #print axioms MicroHttp.C07.wrote_own_bytes
 #print axioms MicroHttp.C07.server_reply_to_own_input
+#print axioms MicroHttp.C08.received_is_own_queue
+#print axioms MicroHttp.C08.queue_is_answers_and_interims
